@@ -72,7 +72,10 @@ pub enum Amt {
 #[cfg(not(feature = "fpdec"))]
 pub mod amt {
     use super::*;
+    #[cfg(feature = "lib-std")]
     pub const BACKEND: &str = "f64";
+    #[cfg(not(feature = "lib-std"))]
+    pub const BACKEND: &str = "f64-nostd";
     pub fn to_amount(a: Amt) -> AmountT {
         match a {
             Amt::F(bits) => f64::from_bits(bits),
